@@ -74,7 +74,23 @@ def judge_codec_case(case, res):
 def run_codec(ctx, probe, tab, opcodes, cov):
     deep = ctx.tier == "thorough"
     mc = write_mc(ctx, "NanoISA_MC", "NanoISA", tab, opcodes, deep)
-    r = tlc(ctx, "NanoISA_MC", cfg="NanoISA", workers=workers(ctx), timeout=1500, cwd_files=[mc])
+    try:
+        r = tlc(ctx, "NanoISA_MC", cfg="NanoISA", workers=workers(ctx), timeout=1500, cwd_files=[mc])
+    except InfraError as e:
+        # a constant-level invariant (consistency of the extracted table) that is false is reported by TLC
+        # before the search starts, with its own wording and exit code
+        import re
+        mm = re.search(r"The invariant of (\w+) is equal to FALSE", str(e))
+        if not (mm and mm.group(1) in CONSISTENCY):
+            raise
+        path = ctx.save_replay("codec-model-%s.txt" % mm.group(1),
+                               "invariant %s of NanoISA.tla is false for the constants extracted from the tree\n"
+                               "opcodes in isa.h: %s\nvalid table entries: %s\n" % (
+                                   mm.group(1), opcodes, [e_["b"] for e_ in tab["table"] if e_["valid"]]))
+        ctx.violation("opcode enum / instruction table inconsistent: %s (enum-only %s, table-only %s)" % (
+            mm.group(1), sorted(set(opcodes) - {e_["b"] for e_ in tab["table"] if e_["valid"]}),
+            sorted({e_["b"] for e_ in tab["table"] if e_["valid"]} - set(opcodes))), path)
+        return
     if r.violated:
         # the spec is closed except for the extracted constants: a failing invariant is a fact about the code
         trace = "\n".join(r.trace[:2])
